@@ -78,7 +78,10 @@ def perms {α : Type} : List α → List (List α)
 def stripAlternatives (fc : Facts) (x : Ext) (s : St) : J :=
   let s1 := stripPrepare s
   let orders := (perms (stripCandidates s1)).take 24
-  .obj [("anyOf", .arr (orders.map fun o => JsonIO.outcome encSt ((stripInOrder fc x s1 o).bind fun r => .ok r.1)))]
+  let enc := fun (r : St × Bool) => match encSt r.1 with
+    | .obj kvs => J.obj (kvs ++ [("again", .bool r.2)])
+    | j => j
+  .obj [("anyOf", .arr (orders.map fun o => JsonIO.outcome enc (stripInOrder fc x s1 o)))]
 
 /-- input: {opts, ext, steps: [{name, doc, ctx}]}: each step is the state before the named phase -/
 def run (fc : Facts) (inp : J) : J :=
@@ -87,6 +90,7 @@ def run (fc : Facts) (inp : J) : J :=
   .arr ((inp.getArr "steps").map fun st =>
     let s : St := { Flatten.initial fc ((st.get? "doc").getD .null) with ctx := ctxOf ((st.get? "ctx").getD .null) }
     if st.getStr "name" = "stripOAIGen" then stripAlternatives fc x s else
+    if st.getStr "name" = "pipeline" then JsonIO.outcome encSt (flattenLocal fc x o 16 s) else
     match runPhase fc x o (st.getStr "name") s with
     | some r => JsonIO.outcome encSt r
     | none => .obj [("notModelled", .str (st.getStr "name"))])
